@@ -2291,7 +2291,10 @@ class FileSet:
             # Store the data of the file with the new file handler
             destination.write(data, new_filename)
 
-            if not copy:
+            # A conversion in place (the new name is the old one) must not
+            # remove what it has just written:
+            if not copy and os.path.abspath(new_filename) \
+                    != os.path.abspath(file_info.path):
                 os.remove(file_info.path)
         else:
             # Create the new directory if necessary.
